@@ -368,12 +368,15 @@ class ParseAPI(object):
             if c in s:
                 s0, s1 = s.split(c, 1)
                 v0 = self.as_number(s0)
-                if v0:
+                if v0 and 0 < v0 < generator.p():
                     if s1 in ("even", "odd"):
                         is_y_odd = s1 == "odd"
-                        point = generator.points_for_x(v0)[is_y_odd]
+                        try:
+                            point = generator.points_for_x(v0)[is_y_odd]
+                        except ValueError:
+                            pass
                     v1 = self.as_number(s1)
-                    if v1:
+                    if v1 and 0 < v1 < generator.p():
                         if generator.contains_point(v0, v1):
                             point = generator.Point(v0, v1)
         if point:
